@@ -40,6 +40,7 @@ from engines import masterloop
 
 scheduler.DIMENSION_COUNT = 3
 
+INTRUDE_PROPS = ('C01', 'C03', 'C04', 'C05', 'C06', 'C07', 'C08', 'C09', 'C11')
 LOOP_PROPS = ('C09', 'C11', 'C01', 'C02', 'C03', 'C04', 'C05', 'C06', 'C07',
               'C08')
 CELL_PROPS = ('C01', 'C03', 'C04', 'C05', 'C06', 'C07', 'C08', 'C02')
@@ -375,6 +376,7 @@ class World(masterloop.LoopWorld):
         self.last_cycle_caught_up = False
         self.writes_at_cycle_end = 0
         self.placement_at_cycle_end = None
+        self.intruded = set()
         self._setup_static()
 
     # ------------------------------------------------------------------
@@ -607,7 +609,10 @@ class World(masterloop.LoopWorld):
                     # ... and its state set by whether its presence node
                     # exists NOW, not by the (possibly stale) snapshot
                     if self.zk.nodes.get(
-                            z.path.server_presence(name)) is None:
+                            z.path.server_presence(name)) is None and \
+                            name not in self.intruded:
+                        # (a node that died while the master was at work
+                        # may have been looked at before it died)
                         truth.seen_gone.add(name)
             for name in sorted(truth.seen_gone):
                 if self.zk.nodes.get(
@@ -857,7 +862,44 @@ class World(masterloop.LoopWorld):
             # loop tier: the master-stepping ops are carried out by the
             # repo's own run_loop (engines/masterloop.py)
             name = masterloop.LOOP_OPS.get(name, name)
+        if op.get('intrude') and self.master_client is not None and \
+                name in ('process', 'master_cycle', 'lop_step',
+                         'lop_cycle'):
+            self._arm_intrusion(op['intrude'])
+            try:
+                getattr(self, 'op_' + name)(op)
+            finally:
+                if self.master_client is not None:
+                    self.master_client.call_hook = None
+                self.intruded = set()
+            return
         getattr(self, 'op_' + name)(op)
+
+    def _arm_intrusion(self, plan):
+        """The world does not hold still while the master works: before
+        the k-th ZooKeeper call of this master step a node dies, registers
+        or an instance is deleted."""
+        client = self.master_client
+        left = [int(plan['at'])]
+        self.intruded = set()
+
+        def hook(path=None):
+            if plan.get('on_path') is not None and path != plan['on_path']:
+                return                # (counts calls that name this path)
+            left[0] -= 1
+            if left[0] != 0:
+                return
+            client.call_hook = None
+            inner = plan['op']
+            if inner['op'] not in ('presence_down', 'presence_up',
+                                   'app_delete_quiet'):
+                raise simkit.HarnessError('intrusion %r' % (inner,))
+            self.faults['mid_call_world_event'] = \
+                self.faults.get('mid_call_world_event', 0) + 1
+            if inner.get('name'):
+                self.intruded.add(inner['name'])
+            getattr(self, 'op_' + inner['op'])(inner)
+        client.call_hook = hook
 
     def _node_client(self, name, fresh=False):
         client = self.node_sessions.get(name)
@@ -1098,6 +1140,7 @@ class World(masterloop.LoopWorld):
         events = self.truth_before_process(path, children) if cellp else None
         self._proc_t0 = self.clock.peek()
         _FREEZE_LOG = [] if cellp else None
+        held_before = self.servers_with_apps()
         try:
             # Master.process is wrapped by utils.exit_on_unhandled (logs and
             # exits); call the wrapped function so the cause is visible.
@@ -1115,6 +1158,7 @@ class World(masterloop.LoopWorld):
         if cellp:
             self.truth_after_process(path, children, events)
             _FREEZE_LOG = None
+            self.check_no_server_dropped(self.master, held_before)
         self.probes['events_processed'] += 1
         # the watcher re-arms: a change since the snapshot is noticed now
         self._snapshot(path)
@@ -1399,6 +1443,32 @@ class World(masterloop.LoopWorld):
 
     # -- the same truth bookkeeping for the loop tier (engines/masterloop.py),
     #    called from wrappers around the master's own calls
+    def servers_with_apps(self):
+        master = self.master if self.master is not None else \
+            (self.loop.master if self.loop is not None else None)
+        if master is None or self.prop != 'C08':
+            return {}
+        return {name: sorted(srv.apps)
+                for name, srv in master.servers.items() if srv.apps}
+
+    def check_no_server_dropped(self, master, before):
+        """C08: whatever happens to a server's presence while an event is
+        handled, a server that is still defined (with data, under a bucket
+        the master knows) stays in the model - dropping it takes its
+        instances off at once, retention or not."""
+        for name in sorted(before):
+            if name in master.servers:
+                continue
+            if self._master_can_load(name) and \
+                    name not in self.untold_servers:
+                self.fail('C08:lost-placement-before-retention:'
+                          'defined-server-dropped',
+                          'server %s (still defined: %r) was dropped from '
+                          'the model while an event was handled; it held %s'
+                          % (name, self._zk_obj(z.path.server(name)),
+                             before[name]))
+                return
+
     def lt_process_begin(self, path, children):
         global _FREEZE_LOG
         cellp = self.prop in CELL_PROPS
@@ -1822,6 +1892,7 @@ class Generator:
         self.config['aff_limits'] = {
             k: dict(v) for k, v in config['aff_limits'].items()}
         self.rng = streams.get('gen')
+        self.irng = streams.get('intrude')
         self.nsrv = len(config['servers'])
         self.follow = []
         self.weights = [(k, w * config['wmul'].get(k, 1.0))
@@ -1831,6 +1902,41 @@ class Generator:
                              else w) for k, w in self.weights]
 
     def next_op(self, world):
+        op = self._next_op(world)
+        p_intrude = self.config.get('p_intrude')
+        if p_intrude and op['op'] in ('process', 'master_cycle') and \
+                op.get('crash_at') is None and not op.get('intrude') and \
+                self.irng.random() < p_intrude:
+            inner = self._intrusion(world)
+            if inner is not None:
+                op = dict(op, intrude={
+                    'at': self.irng.choice([1, 2, 3, 4, 5, 6, 8, 10, 14, 20]),
+                    'op': inner})
+        return op
+
+    def _intrusion(self, world):
+        """Something another actor does while the master is inside a step
+        (own random stream: the histories of runs without intrusions do not
+        change)."""
+        irng = self.irng
+        kind = irng.choice(['presence_down', 'presence_down', 'presence_up',
+                            'app_delete_quiet'])
+        if kind == 'app_delete_quiet' and world.prop in CELL_PROPS:
+            # (whether the master read the manifest before it went is
+            # something the harness's record of what the master was shown
+            # cannot tell)
+            kind = 'presence_down'
+        if kind == 'app_delete_quiet':
+            names = sorted(self._scheduled(world))
+            return {'op': kind, 'name': irng.choice(names)} if names else None
+        names = sorted(self._servers(world))
+        present = [n for n in names if world.zk.nodes.get(
+            z.path.server_presence(n)) is not None]
+        pool = present if kind == 'presence_down' else \
+            [n for n in names if n not in present]
+        return {'op': kind, 'name': irng.choice(pool)} if pool else None
+
+    def _next_op(self, world):
         if self.follow:
             item = self.follow.pop(0)
             if 'gen' in item:
@@ -2523,6 +2629,43 @@ class Generator:
             {'op': 'drain'}, {'op': 'master_cycle'}])
         return {'op': 'srv_state', 'name': name, 'state': 'frozen'}
 
+    def g_reload_race(self, world):
+        """A node that holds instances restarts with a changed record and
+        dies again while the master is reloading it: its presence node goes
+        between two of the master's reads of it."""
+        cands = []
+        for name in self._servers(world):
+            data = world._zk_obj(z.path.server(name)) or {}
+            kept = [a for a in world.zk.children(z.path.placement(name))
+                    or [] if (world._zk_obj(z.path.scheduled(a)) or {}).get(
+                        'data_retention_timeout') in ('5m', '1h')]
+            # (instances that stay on the server while it is down)
+            if data.get('parent') and kept and \
+                    world.zk.nodes.get(z.path.server_presence(name)):
+                cands.append((name, data))
+        if not cands:
+            return None
+        name, old = self.rng.choice(cands)
+        grown = self.rng.choice(CAP_SPELL)(
+            self.rng.randint(self.config['cap_hi'],
+                             self.config['cap_hi'] + 4) * 256)
+        pres = z.path.server_presence(name)
+        self.follow.extend([
+            {'op': 'drain'}, {'op': 'master_cycle'},
+            {'op': 'srv_set', 'quiet': True, 'name': name,
+             'parent': old['parent'],
+             'partition': old.get('partition') or '_default',
+             'memory': grown, 'cpu': old.get('cpu'),
+             'disk': old.get('disk'), 'traits': old.get('traits') or [],
+             'up_since': old.get('up_since')},
+            {'op': 'presence_up', 'name': name},
+            {'op': 'snap', 'path': z.SERVER_PRESENCE},
+            {'op': 'process', 'intrude': {
+                'on_path': pres, 'at': self.rng.choice([2, 3, 4, 5, 5, 6]),
+                'op': {'op': 'presence_down', 'name': name}}},
+            {'op': 'drain'}, {'op': 'master_cycle'}])
+        return {'op': 'presence_down', 'name': name}
+
     def g_stale_presence_snapshot(self, world):
         """A server the master holds as down registers again, the watch
         fires, and the server is gone again before the master gets to the
@@ -2979,7 +3122,7 @@ OP_WEIGHTS = [
     ('resize_mixed', 3), ('frozen_then_presence_lost', 3),
     ('trait_lost_then_place', 3), ('stale_presence_snapshot', 3),
     ('overlapping_blackouts', 3), ('frozen_node_restart', 3),
-    ('blackout_near_miss', 3),
+    ('blackout_near_miss', 3), ('reload_race', 3),
 ]
 
 
@@ -3105,6 +3248,10 @@ def make_config(prop, tier, rng):
     if prop in LOOP_PROPS:
         # loop tier (engines/masterloop.py): the real run_loop / watch
         cfg['loop'] = rng.random() < 0.3
+    if prop in INTRUDE_PROPS:
+        # world events that land between two ZooKeeper calls of one master
+        # step
+        cfg['p_intrude'] = rng.choice([0.0, 0.0, 0.1, 0.3])
     return cfg
 
 
